@@ -69,6 +69,8 @@ class Validated(Forward):
                 return True, state
         if isinstance(expr, ast.Compare) and len(expr.ops) == 1 and isinstance(expr.left, ast.Name) and expr.left.id == self.p \
                 and isinstance(expr.ops[0], ast.Eq) and isinstance(expr.comparators[0], ast.Constant):
+            self.eq_lits = getattr(self, "eq_lits", [])
+            self.eq_lits.append((expr, expr.comparators[0].value))
             return True, state
         return state, state
 
@@ -174,7 +176,7 @@ def check_padding(ctx, rep, RULE="U5"):
             self.tok = []
 
         def on_call(self, eng, fr, node, callee, args, kwargs, st):
-            if callee is sp and fr.depth == 0:
+            if callee is sp:            # in selfies_to_encoding itself or in a helper of it that the engine inlined
                 self.tok.append((node, args[0] if args else None, st))
                 return Unk(("tokens", next(eng.counter)))
             return None
@@ -233,7 +235,7 @@ def _terms(st):
     return out
 
 
-def vocab_uses(ctx, rep, f, pname, allow_in):
+def vocab_uses(ctx, rep, f, pname, allow_in, _depth=0):
     parents = {}
     for n in own_nodes(f.node):
         for c in ast.iter_child_nodes(n):
@@ -254,6 +256,18 @@ def vocab_uses(ctx, rep, f, pname, allow_in):
                 call = p if isinstance(p, ast.Call) else parents.get(id(p))
                 s = {id(x.node): x for x in ctx.cg.sites(f)}.get(id(call))
                 ok = bool(s and s.callees)     # forwarded to a per-string function (checked by U4)
+                if ok and _depth < 2:
+                    # ... or to a private helper of this module, whose uses of the vocabulary count as this function's
+                    for g in s.callees:
+                        if g.module is f.module and g.cls is None and g.name.startswith("_"):
+                            pos = g.posparams
+                            gp = None
+                            if isinstance(p, ast.Call) and p.args.index(n) < len(pos):
+                                gp = pos[p.args.index(n)]
+                            elif isinstance(p, ast.keyword) and p.arg in g.params:
+                                gp = p.arg
+                            if gp is not None:
+                                n_sub += vocab_uses(ctx, rep, g, gp, allow_in, _depth + 1)
                 if not ok:
                     why = "vocabulary is handed to %s" % unparse(call.func)
             elif isinstance(p, ast.Attribute):
@@ -342,6 +356,9 @@ def run(ctx, rep):
             raise AnalysisError("%s has no enc_type parameter" % f.qual)
         v = Validated(f, "enc_type", ctx)
         v.run(False)
+        if not v.literals and getattr(v, "eq_lits", None):
+            # validated by an if / elif chain of equality tests that ends in the raise: the accepted values are the tested ones
+            v.literals.append((v.eq_lits[0][0], tuple(sorted({lit for _n, lit in v.eq_lits if isinstance(lit, str)}))))
         ok = not v.bad_exits and bool(v.literals)
         rep.ob("U1", ok, v.bad_exits[0] if v.bad_exits else f.node, f, construct="enc_type validation of %s" % f.name,
                how="every path to a result passes the membership test", nontrivial=True, key="%s/dominates" % f.name,
